@@ -29,6 +29,7 @@ def main():
     subprocess.run(["rm", "-rf", W])
     subprocess.run(["git", "-C", repo, "worktree", "prune"], capture_output=True)
     results = []
+    benign = []
     try:
         # the scratch copy must reflect the current working tree, not only HEAD
         r = subprocess.run(["git", "-C", repo, "worktree", "add", "--detach", W, "HEAD"], capture_output=True, text=True)
@@ -53,6 +54,20 @@ def main():
             lines = [l.strip() for l in c.stdout.splitlines() if l.startswith("  R") and "instances=" not in l or "FAIL-CLOSED" in l]
             results.append({"patch": name, "outcome": "caught" if c.returncode == 1 and "VIOLATION property=%s" % pid in c.stdout else "missed",
                             "first_report": (lines[0][:240] if lines else None)})
+        # negative controls: behaviour-preserving refactors (benign/*.diff) must leave the check silent
+        for p in sorted(glob.glob(os.path.join(VERIF, "benign", "b0[13]_*.diff"))):
+            subprocess.run(["git", "-C", W, "checkout", "-q", "--", "."])
+            subprocess.run(["git", "-C", W, "clean", "-fdq"])
+            if base.strip():
+                subprocess.run(["git", "-C", W, "apply"], input=base, text=True)
+            a = subprocess.run(["git", "-C", W, "apply", p], capture_output=True, text=True)
+            if a.returncode != 0:
+                benign.append({"patch": os.path.basename(p), "outcome": "does-not-apply-to-current-tree"})
+                continue
+            c = subprocess.run([os.path.join(VERIF, "bin", "check"), pid, "--tier", "quick"], capture_output=True, text=True, env=env)
+            lines = [l.strip() for l in c.stdout.splitlines() if l.startswith("  R") and "instances=" not in l or "FAIL-CLOSED" in l]
+            benign.append({"patch": os.path.basename(p), "outcome": "quiet" if c.returncode == 0 else "alarm", "first_report": (lines[0][:240] if lines else None)})
+        subprocess.run(["git", "-C", W, "clean", "-fdq"])
     finally:
         subprocess.run(["git", "-C", repo, "worktree", "remove", "--force", W], capture_output=True)
         subprocess.run(["rm", "-rf", W, "/var/tmp/vrl-verif.thorough.%s.evidence" % pid])
@@ -64,10 +79,16 @@ def main():
         "replayed": len(results), "caught": sum(1 for r in results if r["outcome"] == "caught"),
         "missed": [r["patch"] for r in results if r["outcome"] == "missed"], "results": results,
     }
+    ev["coverage"]["thorough_negative_controls"] = {
+        "what": "behaviour-preserving refactors (benign/*.diff: renamed bindings, reordered arms, extracted helpers, a new stdlib function, shifted lines) "
+                "applied to a scratch copy of the current tree; the check must stay silent",
+        "replayed": len(benign), "quiet": sum(1 for r in benign if r["outcome"] == "quiet"), "results": benign,
+    }
     ev["wall_s"] = round(ev.get("wall_s", 0) + time.time() - t0, 3)
     json.dump(ev, open(evp, "w"), indent=1)
-    print("thorough: %d positive controls replayed, %d caught, missed: %s" % (len(results), ev["coverage"]["thorough_positive_controls"]["caught"],
-                                                                             ev["coverage"]["thorough_positive_controls"]["missed"]))
+    print("thorough: %d positive controls replayed, %d caught, missed: %s; %d benign refactors replayed, %d quiet" % (
+        len(results), ev["coverage"]["thorough_positive_controls"]["caught"], ev["coverage"]["thorough_positive_controls"]["missed"],
+        len(benign), ev["coverage"]["thorough_negative_controls"]["quiet"]))
 
 
 if __name__ == "__main__":
